@@ -60,7 +60,11 @@ def instances(tier, seed):
                   {'fam': 'T2', 'K0': 1, 'K1': 1, 'T': 2}, {'fam': 'T2', 'K0': 1, 'K1': 1, 'T': 2, 'pit': {'fold_bn': True}}, {'fam': 'D2', 'C': 3, 'cin': 2, 'pool': 'avg'},
                   {'fam': 'R2', 'K': 1}, {'fam': 'R4', 'K': 1}, {'fam': 'L1'}, {'fam': 'X1', 'kind': 'conv'}, {'fam': 'F1', 'C': 3, 'T': 2}]
     progs.append({'fam': 'R3'})
-    return [{'id': pitlib.prog_id(s), 'spec': s, 'wseed': seed} for s in progs]
+    out = [{'id': pitlib.prog_id(s), 'spec': s, 'wseed': seed} for s in progs]
+    # MPS side of the same bookkeeping: per-channel weight search with the 0-bit (pruning) option; both operands of a residual sum keep the same
+    # alive channels, also when a channel-preserving reshape (flatten(2)) sits between a searchable layer and the sum
+    out.append({'id': 'MPS:MF(per_channel+0bit)', 'what': 'mps_add', 'spec': {'fam': 'MF', 'wtype': 'channel', 'w': [0, 2, 8], 'a': [8]}, 'wseed': seed})
+    return out
 
 
 def _layer_types():
@@ -108,7 +112,86 @@ def observe_concrete(spec, wseed, masks, x=None):
     return out, err
 
 
+def _mps_add_observe(m):
+    """alive channels (non-zero selected weight precision) of the two operands of the sum and the features the consumer is given"""
+    summ = m.summary()
+    al = {n: [int(b != 0) for b in summ[n]['w_precision']] for n in ('stem', 'a')}
+    cons = float(m.seed.c.input_features_calculator.features)
+    return al, cons
+
+
+def _mps_add_problem(al, cons):
+    if al['stem'] != al['a']:
+        return 'add_operands_differ', f"the operands of the residual sum keep different channels alive: stem {al['stem']} vs a {al['a']}"
+    union = sum(1 for u, v in zip(al['stem'], al['a']) if u or v)
+    if abs(cons - union) > 1e-6:
+        return 'consumer_features!=alive', f'the consumer of the sum is given {cons} input features but {union} channels of the tensor reaching it are alive'
+    return None
+
+
+def _replay_mps_add(rec):
+    from vlib import mpslib
+    m, model, shape = mpslib.make_mps(rec['spec'], rec.get('wseed', 0))
+    mpslib.set_alphas(m, rec['alphas'])
+    with torch.no_grad():
+        m(torch.zeros((1,) + tuple(shape)))
+    al, cons = _mps_add_observe(m)
+    pr = _mps_add_problem(al, cons)
+    return pr is not None and pr[0] == rec['observable'], f'{pr} alive={al} consumer features={cons}'
+
+
+def _run_mps_add(res, p):
+    from vlib import mpslib
+    spec, wseed, selftest = p['spec'], p.get('wseed', 0), p.get('selftest', False)
+    m, model, shape = mpslib.make_mps(spec, wseed)
+
+    def fn(ex):
+        pairs, sy = mpslib.fresh_alphas(m, ex, only=lambda nme: nme.endswith('stem.w_mps_quantizer') or nme.endswith('a.w_mps_quantizer'))
+        with SymMode(), swapped_params(pairs), mpslib.saved_thetas(m):
+            m(torch.zeros((1,) + tuple(shape)))        # eval mode: forks on every per-channel arg-max
+            al, cons = _mps_add_observe(m)
+        return sy, al, cons
+    ex = Explorer(timeout_ms=Q)
+    n = 0
+    for pc, (sy, al, cons) in ex.explore(fn):
+        n += 1
+        if all(v == 0 for v in al['stem']) or all(v == 0 for v in al['a']):
+            continue        # a layer with every channel pruned disappears (MPS has no keep-alive): outside, as in C05
+        pr = _mps_add_problem(al, cons)
+        if selftest and n == 1:
+            pr = ('add_operands_differ', 'seeded')
+        res.oblige(pr is None)
+        mm = mpslib.grid_model(ex, sy, [])
+        alphas = mpslib.values_of(mm, sy)
+        rec = {'what_kind': 'mps_add', 'spec': spec, 'wseed': wseed, 'alphas': jsonable(alphas)}
+        if pr is None:
+            ok, msg = _replay_mps_add(dict(rec, observable='none'))
+            al_c = msg
+            res.validated += 1
+            if n <= 2:
+                res.sample({'program': 'MF (MPS per-channel, 0 bit)', 'alphas': alphas, 'alive': al, 'consumer_features': cons})
+            continue
+        rec.update(observable=pr[0], key=f'MPS:MF|{pr[0]}' + ('|selftest' if selftest else ''), what=f'MPS MF (per-channel search with 0 bit): {pr[1]}')
+        if selftest:
+            res.violations.append(jsonable(rec))
+            continue
+        if any(v['key'] == rec['key'] for v in res.violations):
+            continue
+        ok, msg = _replay_mps_add(jsonable(rec))
+        if ok:
+            rec['replay_msg'] = msg
+            res.violations.append(jsonable(rec))
+        else:
+            res.errors.append(f'counterexample did not reproduce: {rec["key"]}: {msg[:300]}')
+    res.witnesses += 1
+    res.witnesses_ok += 1 if ex.n_paths >= 2 else 0
+    res.absorb(ex)
+    return res
+
+
 def replay(rec):
+    if rec.get('what_kind') == 'mps_add':
+        return _replay_mps_add(rec)
     out, err = observe_concrete(rec['spec'], rec.get('wseed', 0), rec['masks'])
     obs = rec['observable']
     if obs == 'export_or_run_raised':
@@ -124,6 +207,8 @@ def replay(rec):
 
 def run_instance(p):
     res = InstanceResult(p['id'])
+    if p.get('what') == 'mps_add':
+        return _run_mps_add(res, p)
     spec, wseed, selftest = p['spec'], p.get('wseed', 0), p.get('selftest', False)
     pit, model, shape = pitlib.make_pit(spec, wseed, positive=True, discrete_cost=True)
     layers = [(n, l) for n, l in pitlib.pit_layers(pit) if isinstance(l, _layer_types())]
